@@ -86,11 +86,34 @@ pub fn run(out: &mut Out, tier: &str, seed: u64) {
     seqs.push((4, vec![w("class A:"), Op::Newline, Op::Indent, w("x: int"), Op::Newline, Op::Blank(1), w("def f(self) -> int:"), Op::Newline, Op::Indent, w("return"), Op::EndLine, Op::Dedent, Op::Blank(1), w("def g(self) -> None:"), Op::Newline, Op::Indent, w("pass"), Op::EndLine, Op::EndLine, Op::Dedent, Op::Dedent, Op::Blank(2), w("x = 1"), Op::Newline]));
     seqs.push((2, vec![Op::Indent, Op::Indent, Op::Newline, Op::Blank(2), w("deep"), Op::Newline, Op::Dedent, Op::Dedent, Op::Dedent, w("top"), Op::EndLine]));
     seqs.push((4, vec![Op::Indent, w(""), Op::Newline, w(" "), Op::Newline]));
+    // deep nesting: one line per level, down to level 14 and back (any indentation width, however wide the line gets)
+    for width in [2usize, 4, 8] {
+        let mut ops: Vec<Op> = Vec::new();
+        for lvl in 0..15 {
+            ops.push(w(&format!("if a{lvl}:")));
+            ops.push(Op::Newline);
+            ops.push(Op::Indent);
+        }
+        ops.push(w("pass"));
+        ops.push(Op::Newline);
+        for _ in 0..15 {
+            ops.push(Op::Dedent);
+            ops.push(w("x = 1"));
+            ops.push(Op::EndLine);
+        }
+        seqs.push((width, ops));
+    }
     let n = if tier == "thorough" { 20_000 } else { 2_000 };
     for _ in 0..n {
         let len = 1 + rng.below(24) as usize;
         let tidy = rng.chance(2, 3); // mostly sequences that keep the client's side
         let mut ops: Vec<Op> = Vec::new();
+        // a quarter of the sequences start some levels deep
+        if rng.chance(1, 4) {
+            for _ in 0..rng.below(16) {
+                ops.push(Op::Indent);
+            }
+        }
         for _ in 0..len {
             let op = match rng.below(12) {
                 0..=4 => {
